@@ -71,6 +71,9 @@ class AuditResult:
     # set when the audit ran the REAL code of the tree under verification and found a concrete input on which the property
     # itself fails (dict(input=, observed=, required=)): reported as a violation with a replayed input, not as a checker error
     violation: Optional[dict] = None
+    # failing inputs that belong to a class the audit knows how to name: each is a KNOWN-FINDING if that class is listed in
+    # KNOWN_FINDINGS.txt for this property, a violation otherwise   [dict(cls=, input=, observed=, required=)]
+    classified: Optional[List[dict]] = None
 
 
 class Check:
@@ -700,6 +703,16 @@ def run_check(check: Check, tier: str = "quick", seed: int = 0) -> int:
         try:
             ar = a()
             audit_report.append(dict(name=ar.name, ok=ar.ok, cases=ar.cases, bound=ar.bound, detail=ar.detail[:500]))
+            for cf in (ar.classified or []):
+                listed = [k for k in known if k["cls"] == cf.get("cls")]
+                if listed:
+                    for k in listed:
+                        line = f"KNOWN-FINDING: property={prop} {k['text']} [bounded native audit {ar.name}, class {k['cls']}]"
+                        if line not in known_hits:
+                            known_hits.append(line)
+                elif not ar.violation:
+                    ar.ok = False
+                    ar.violation = dict(input=cf.get("input"), observed=cf.get("observed"), required=cf.get("required"))
             if not ar.ok and ar.violation:
                 nm = f"{prop}.bounded_native_audit.{re.sub(r'[^A-Za-z0-9_]+', '_', ar.name)}"
                 rpath = os.path.join(VERIF, "replays", prop, nm[:150] + ".json")
